@@ -330,8 +330,11 @@ type TableOpts struct {
 	Item             func(r *R) ItemSpec        // body and header item generator
 	HeaderItem       func(r *R, c int) ItemSpec // optional override for header items
 	NoPostAttach     bool                       // restrict to modes that finish the row before attaching it
+	NoScale          bool                       // never draw the occasional very wide / very long table
 	Noise            int                        // NoiseSkipable|NoiseAlign: properties of other renderers that may be set on a third of the tables
 }
+
+var scaleSizes = []int{17, 33, 64, 65, 66, 70, 129, 130, 257, 300}
 
 // Table draws a random table spec.
 func (r *R) Table(o TableOpts) TableSpec {
@@ -343,6 +346,16 @@ func (r *R) Table(o TableOpts) TableSpec {
 	nrows := r.Range(0, o.MaxRows)
 	if r.Chance(1, 3) {
 		nrows = r.Range(0, 3)
+	}
+	// scale: now and then a table far wider or far longer than any fixed-size bookkeeping (bit sets of 64,
+	// byte-sized counters, small arrays) a renderer might keep per column or per row
+	if !o.NoScale && ncols > 0 {
+		switch r.Intn(160) {
+		case 0:
+			ncols, nrows = Pick(r, scaleSizes), r.Range(1, 3)
+		case 1:
+			ncols, nrows = r.Range(1, 3), Pick(r, scaleSizes)
+		}
 	}
 	switch o.Header {
 	case 1:
